@@ -207,6 +207,20 @@ def run(ck, m):
     stored = [norm(e).replace("renderable_data.", "data.") for e in store.value.elts[1:]] if store is not None else None
     ck.ob("R1", store or itf, stored == compared, f"details stored with a frame {stored} differ from the details compared {compared}", stmt="stored details == compared details")
     ck.ob("R1", store or itf, store is not None and norm(store.targets[0].slice) == "frame_no" and rc.lineno < store.lineno, "the frame must be stored under its own frame number after the render", stmt="cache[frame_no] stored after render")
+    # every render made while caching is on is stored: the store happens under the conditions of the render plus (at most) the caching switch itself.
+    # A further condition (first loop only, first n frames) leaves frames un-cached that are then rendered again on every later visit.
+    if store is not None:
+        from tiv.sem import truth_nnf as _nnf9
+        rc_tests = [id(t_) for t_, _b in guards(rc)]
+        extra9 = []
+        for t_, b_ in guards(store):
+            if id(t_) in rc_tests:
+                continue
+            tt_ = norm(_nnf9(trace(itf, t_, use=store, keep=("cache",)), neg=not b_))
+            if tt_ not in ("cache", "cache is not None", "cache is not False"):
+                extra9.append(tt_)
+        ck.ob("R4", store, not extra9, f"the rendered frame is stored only under {extra9} (beyond the conditions of the render itself and the caching switch): frames rendered when that does not hold are never "
+              "cached although caching is on, and are rendered again on every later loop", stmt="_iterate: every render is stored when caching is on")
     fno = [st for t, st in stores_in(ast.Module(body=itf.body, type_ignores=[])) if isinstance(t, ast.Name) and t.id == "frame_no"]
     ys = [s for s in itf.body if isinstance(s, ast.Expr) and isinstance(s.value, ast.Yield)]
     first = min(fno, key=lambda s: s.lineno) if fno else None
